@@ -5,7 +5,7 @@
   IState ≃ pure lexer (C18Pos: the line/column bookkeeping computes `posOf`).
 -/
 import CedarGo.Model.Text.Scanner
-namespace CedarGo.Text
+namespace CedarGo.Text.Lx
 
 structure IState where
   doc : List UInt8
@@ -60,4 +60,4 @@ def incSrc : Src IState where
   tokEnd := IState.tokEnd
   err := fun s => s.err
 
-end CedarGo.Text
+end CedarGo.Text.Lx
